@@ -498,12 +498,12 @@ void band_update_stats(band_state *band) {
     }
 
     if (band->r > 0 && band->begun) {
-        uint32_t r_pow_beta = band->r;
-        for (int i = 1; i < BAND_BETA; i++) {
-            r_pow_beta *= band->r;
+        /* ALPHA * r^BETA saturating at NMAX: 32-bit arithmetic wraps from r = 65536 on */
+        uint64_t new_ni = BAND_ALPHA;
+        for (int i = 0; i < BAND_BETA && new_ni <= BAND_NMAX; i++) {
+            new_ni *= band->r;
         }
-        uint32_t new_ni = BAND_ALPHA * r_pow_beta;
-        band->Ni = (new_ni > BAND_NMAX) ? BAND_NMAX : new_ni;
+        band->Ni = (new_ni > BAND_NMAX) ? BAND_NMAX : (uint32_t)new_ni;
     }
 
     band->r = 0;
